@@ -81,20 +81,26 @@ def closeW (i : Nat) (w : World) : World :=
     let w2 := if (w.iters i).finalizeData then finalizeW (w.iters i).data .lib w1 else w1
     apply (.markClosed i) (apply (.delData i) w2)
 
-theorem wp_finalizeP (I : Target → Exc → Prop) (d : Nat) (by_ : By) (b : Bool)
+/-- the fault plans of `I` never make `_finalize_render_data_` raise -/
+def NoHook (I : Target → Exc → Prop) : Prop := ∀ e, ¬ I .finhook e
+
+@[simp] theorem noHook_inj : NoHook inj := fun _ h => h
+
+theorem wp_finalizeP (I : Target → Exc → Prop) (hI : NoHook I) (d : Nat) (by_ : By) (b : Bool)
     (Qn : Bool → World → Prop) (Qx : Bool → Exc → World → Prop) (w : World) :
     wp sem I (finalizeP d by_) b Qn Qx w ↔ Qn b (finalizeW d by_ w) := by
   unfold finalizeP finalizeW
-  by_cases h : (w.objs d).finalized = true <;> simp [wp, h, Prog.do, target]
+  have hI' : ∀ e, I Target.finhook e ↔ False := fun e => iff_false_intro (hI e)
+  by_cases h : (w.objs d).finalized = true <;> simp [wp, h, Prog.do, target, hI']
 
-theorem wp_closeP (I : Target → Exc → Prop) (i : Nat) (b : Bool)
+theorem wp_closeP (I : Target → Exc → Prop) (hI : NoHook I) (i : Nat) (b : Bool)
     (Qn : Bool → World → Prop) (Qx : Bool → Exc → World → Prop) (w : World) :
     wp sem I (closeP i) b Qn Qx w ↔ Qn b (closeW i w) := by
   unfold closeP closeW
   by_cases h : (w.iters i).closed = true
   · simp [wp, h]
   · by_cases hf : (w.iters i).finalizeData = true <;>
-      simp [wp, h, hf, Prog.do, target, wp_finalizeP]
+      simp [wp, h, hf, Prog.do, target, wp_finalizeP _ hI]
 
 /-! ## the invariant -/
 
